@@ -6,6 +6,7 @@ import WireV.NameEmit
 import WireV.Front
 import WireV.Path
 import WireV.Value
+import WireV.Show
 import WireV.Cmd
 import WireV.Generated.Tables
 /-! # WireV.Driver — line protocol of the unit tier (one request per line, one reply per line) -/
@@ -380,6 +381,23 @@ def runValue (ws : List String) : String :=
   | some (e, []) => s!"{b2s (processValueOk e)} evaluates={b2s (evaluatesCall e)} funclit={b2s (hasFuncLit e)}"
   | _ => "bad-request"
 
+/-- `gather <order> <sets> nkeys keys…`: the last set's map, keys in the given iteration order -/
+def runGather (toks : List Nat) : String :=
+  let r : Option (String × List Nat) := (do
+    let order ← pMany pNat
+    let sets ← pMany pSet
+    let keys ← pMany pNat
+    match (procSets order sets).getLast? with
+    | some (_, .ok pm _) =>
+      let g := gather pm keys
+      let strs := g.groups.map (fun (gr : Grp) =>
+        natsStr ((gr.inputs.toArray.qsort (· < ·)).toList) ++ "|" ++ natsStr ((gr.outputs.toArray.qsort (· < ·)).toList))
+      return joinWith " " ("groups" :: sortStrs strs)
+    | _ => return "err").run toks
+  match r with
+  | some (s, []) => s
+  | _ => "bad-request"
+
 def parseNats (ws : List String) : Option (List Nat) := ws.mapM String.toNat?
 
 def handleLine (line : String) : String :=
@@ -411,6 +429,9 @@ def handleLine (line : String) : String :=
     | none => "bad-request nat"
   | "dupparam" :: rest => match parseNats rest with
     | some ns => runDup ns
+    | none => "bad-request nat"
+  | "gather" :: rest => match parseNats rest with
+    | some ns => runGather ns
     | none => "bad-request nat"
   | "emit" :: rest => match parseNats rest with
     | some ns => runEmit false ns
